@@ -18,7 +18,8 @@ SPEC = {
                    "PyMatterSim.reader.lammps_reader_helper:read_lammps",
                    "PyMatterSim.reader.dump_reader:DumpReader.read_onefile"],
     "floors": {"frames": 300, "types": 300, "positions_bitwise": 100, "positions_mapped": 100,
-               "positions_wrapped": 50, "cell": 300, "sample_files": 5, "reader_object_reread": 20, "empty_frames": 3},
+               "positions_wrapped": 50, "cell": 300, "sample_files": 5, "reader_object_reread": 20, "empty_frames": 3,
+               "atoms_exactly_on_a_box_face": 10},
     "insitu": (),
     "rule": ("writer model: truth drawn first, text emitted under LAMMPS conventions; classes {2D,3D} x {x,xs,xu} x "
              "{ortho,tri+,tri-,tri mixed,tri0} x atom order {sorted,reversed,random} x 1..5 frames x origins x number "
@@ -69,6 +70,8 @@ def one_file(ctx, rng, path, via_class, big=False):
         # atom count changing between frames, down to an empty frame (LAMMPS writes "0" atoms when the dumped group is empty)
         N = N0 if not vary_n else int(rng.integers(0, 30))
         frames.append(gd.gen_frame_truth(rng, d, coord, cellkind, N, K, fmt, origin_kind))
+        if frames[-1]["on_boundary"]:
+            ctx.count("atoms_exactly_on_a_box_face", frames[-1]["on_boundary"])
     text, _extras = gd.emit(rng, frames, [int(t) for t in ts], order, extra, spurious_z, flags, ws)
     with open(path, "w") as f:
         f.write(text)
